@@ -71,6 +71,7 @@ type FuncReport struct {
 	Unsup      []string `json:"unsupported,omitempty"`
 	Aborted    string   `json:"aborted,omitempty"`
 	Vacuity    []string `json:"vacuity,omitempty"`
+	Unreached  []string `json:"unreached_blocks,omitempty"` // blocks of the function no explored path entered
 	SolverErrs []string `json:"solver_errors,omitempty"`
 	obligs     []*Oblig
 	trusted    []string
@@ -311,6 +312,35 @@ func verifyFunc(P *Program, name string, tier Tier, outDir string, known []Known
 	if x.returns == 0 && (len(fc.Ensures) > 0 || len(fc.OnReturn) > 0) && x.aborted == "" {
 		rep.Vacuity = append(rep.Vacuity, "no feasible path reaches a return of "+name)
 	}
+	if x.aborted == "" {
+		for _, b := range fn.Blocks {
+			if b.Index == 0 || x.visited[b] || b.Comment == "recover" {
+				continue
+			}
+			pos := ""
+			for _, in := range b.Instrs {
+				if in.Pos().IsValid() {
+					pos = P.pos(in.Pos())
+					break
+				}
+			}
+			tolerated := false
+			for _, in := range b.Instrs {
+				if c, ok := in.(ssa.CallInstruction); ok {
+					name := x.calleeName(nil, nil, c.Common())
+					for _, d := range fc.Dead {
+						if patternMatches(CallPattern{Kind: "call", Callee: d}, "call", name, shortPkg(fc.PkgPath)) {
+							tolerated = true
+						}
+					}
+				}
+			}
+			if tolerated {
+				continue
+			}
+			rep.Unreached = append(rep.Unreached, fmt.Sprintf("block %d (%s) %s", b.Index, b.Comment, pos))
+		}
+	}
 	if x.params != nil {
 		rep.replay = x.replayInfo()
 	}
@@ -325,7 +355,7 @@ func cmdSSA(argv []string) int {
 		repo = argv[1]
 		argv = argv[2:]
 	}
-	P, err := loadProgram(repo, "/verif/specs")
+	P, err := loadProgram(repo, filepath.Join(verifRoot(), "specs"))
 	if err != nil {
 		fmt.Fprintln(os.Stderr, err)
 		return 2
